@@ -16,6 +16,7 @@ CONSTANTS
   MaxCancel = 1000000
   MaxFault = 1000000
   WithHist = FALSE
+  StrictClosed = FALSE
   GenFocus = "none"
   Props = {"C02"}
 CONSTRAINT HWM
